@@ -42,7 +42,7 @@ func utxoChild(args []string) {
 	defer os.RemoveAll(dir)
 	p := chainsim.DefaultParams(uint64(seed), false)
 	p.BIP34, p.BIP66, p.BIP65, p.CSV, p.Segwit, p.Taproot = 104, 105, 106, 107, 108, 109
-	s := chainsim.NewSim(run, r, p, dir, chainsim.NodeOpts{CompressUTXO: seed%2 == 1})
+	s := chainsim.NewSim(run, r, p, dir, chainsim.NodeOpts{CompressUTXO: (seed%100+seed/100)%2 == 1})
 	s.XCheckEvery = 0 // every input of this history spends OP_TRUE with an empty scriptSig
 	g := s.G
 	viol := func(class, what string, w map[string]interface{}) {
